@@ -135,6 +135,20 @@ func genC15(seed uint64, cfg tierCfg) ([]*Scenario, []Call) {
 			statefulIdx = append(statefulIdx, i)
 		}
 	}
+	// per-family sub-pools for the drills: pairs (call, corrupted sibling); bounded so that the
+	// number of distinct calls (= fresh-process references) does not grow with the number of histories
+	famPool := map[string][][2]Call{}
+	perFam := 40 + cfg.pool/14
+	dp := cfg.profile
+	if dp.MaxLen > 200 {
+		dp.MaxLen = 200
+	}
+	for _, fam := range families {
+		for i := 0; i < perFam; i++ {
+			c := genFamily(pr, dp, fam)
+			famPool[fam] = append(famPool[fam], [2]Call{c, corrupt(pr, c)})
+		}
+	}
 	var scs []*Scenario
 	for id := 0; id < cfg.scenarios; id++ {
 		s := mix(seed, 15, 2, uint64(id))
@@ -169,18 +183,15 @@ func genC15(seed uint64, cfg tierCfg) ([]*Scenario, []Call) {
 		}
 		for si := 0; si < nseg; si++ {
 			if drill != "" {
-				dp := cfg.profile
-				if dp.MaxLen > 200 {
-					dp.MaxLen = 200
-				}
 				var prog []Call
 				for n := r.rangeIn(4, 24); n > 0; n-- {
-					c := genFamily(r, dp, drill)
+					pair := famPool[drill][r.intn(len(famPool[drill]))]
+					c, bad := pair[0], pair[1]
 					switch r.intn(4) {
 					case 0:
-						prog = append(prog, withHistoryAttrs(r, corrupt(r, c), 2, 0.7), withHistoryAttrs(r, c, 2, 0.7))
+						prog = append(prog, withHistoryAttrs(r, bad, 2, 0.7), withHistoryAttrs(r, c, 2, 0.7))
 					case 1:
-						prog = append(prog, withHistoryAttrs(r, c, 2, 0.7), withHistoryAttrs(r, corrupt(r, c), 2, 0.7))
+						prog = append(prog, withHistoryAttrs(r, c, 2, 0.7), withHistoryAttrs(r, bad, 2, 0.7))
 					default:
 						prog = append(prog, withHistoryAttrs(r, c, 2, 0.7))
 					}
